@@ -441,6 +441,11 @@ def check_ordering_ops(prog, r):
                 clos = [a for a in t["args"] if True]
                 ck = _closure_arg(prog, fv, t)
                 toks = fn_tokens(prog, ck, depth=1) if ck else set()
+                # a comparator passed as a function item (`sort_by(evpn_type2_cmp)`)
+                for a in t["args"]:
+                    fnk = (a.get("k") or {}).get("fn")
+                    if fnk:
+                        toks = set(toks) | {"call:" + prog.name(fnk) if fnk in prog.ix else "call:" + fnk}
                 if any(x.endswith("evpn_type2_cmp") for x in toks if x.startswith("call:")):
                     r.ok(site + " (evpn_type2_cmp)")
                 elif any(re.search(r"RibEntry as std::cmp::Ord>::cmp", x) for x in toks):
